@@ -421,3 +421,31 @@ def _arc_tokenising(ctx, mdl, pm, fre):
     wrong = [s for s in acc if not redfa.accepts(d, s)] + ['!' + s for s in rej if redfa.accepts(d, s)]
     ctx.record('R02.8', 'path', 'arc argument pattern = num num num flag flag num num', not wrong,
                detail='' if not wrong else 'pattern misclassifies %s' % wrong, where='svgpathtools/path.py', sample={'pattern': pat[:120]})
+    # (3) the tokeniser itself on concrete strings: every legal spelling of the same arcs (separators after the letter, between
+    # the operands, flags run together with each other and with the next number, repeated operand groups) gives the same tokens
+    spell = [('M0,0 A50 50 0 0 1 100 80', ['M', '0', '0', 'A', '50', '50', '0', '0', '1', '100', '80']),
+             ('M0,0 A 50 50 0 01 100 80', ['M', '0', '0', 'A', '50', '50', '0', '0', '1', '100', '80']),
+             ('M0,0A50,50,0,0,1,100,80', ['M', '0', '0', 'A', '50', '50', '0', '0', '1', '100', '80']),
+             ('M0,0 A 50 50 0 01100 80', ['M', '0', '0', 'A', '50', '50', '0', '0', '1', '100', '80']),
+             ('M0,0\nA\n50 50 0 0 1 100 80', ['M', '0', '0', 'A', '50', '50', '0', '0', '1', '100', '80']),
+             ('M0,0 a 40 25 0 1060 0', ['M', '0', '0', 'a', '40', '25', '0', '1', '0', '60', '0']),
+             ('M0,0 a40 25 0 10 60 0 , 40 25 0 01-60 0', ['M', '0', '0', 'a', '40', '25', '0', '1', '0', '60', '0', '40', '25', '0', '0', '1', '-60', '0']),
+             ('M0,0 A 5 5 0 1 1 9 9 L 01 2', ['M', '0', '0', 'A', '5', '5', '0', '1', '1', '9', '9', 'L', '01', '2'])]
+    bad = []
+    und = None
+    for text, want in spell:
+        def th(it, text=text):
+            p_ = it.new_obj('path.Path')
+            return [x if isinstance(x, str) else str(x) for x in it.iterate(it.call_method(p_, '_tokenize_path', text))]
+        try:
+            for pth in explore(mdl, th, {'time_limit': 20}):
+                if pth.raised is not None:
+                    bad.append('%r: raises %s' % (text, pth.raised.exc_name))
+                elif [t_ for t_ in pth.value if t_ not in ('', None)] != want:
+                    bad.append('%r is tokenised as %s' % (text, pth.value))
+        except Undecidable as e:
+            und = str(e)
+    if und and not bad:
+        ctx.undecided('R02.8', ft.qualname, 'arc spellings tokenise alike', und, where=where(ft))
+    else:
+        ctx.record('R02.8', ft.qualname, 'arc spellings tokenise alike', not bad, detail='; '.join(bad[:3]), where=where(ft), sample={'spellings': len(spell)})
